@@ -135,6 +135,10 @@ pub fn run(p: &Params) -> Outcome {
         check(ctx, &Message::Corrupt, "no_wire_form");
         check(ctx, &Message::MsgNotSupported(rtcm_rs::msg::message::MsgNotSupportedT { message_number: 4001 }), "no_wire_form");
         for i in 0..per {
+            if ctx.saturated() {
+                ctx.count("stopped_early_after_20000_violations");
+                break;
+            }
             let num = nums[((i as usize) * nw + w) % nn];
             let frame = if rng.bool() {
                 match gen::lib_frame(num, &mut rng) {
